@@ -442,7 +442,13 @@ class Check:
                 print("NOTE: inconclusive first attempt (%s %s %s), re-running once:\n%s" %
                       (run.harness, run.variant, " ".join(run.args), run.stderr[-2500:]), file=sys.stderr)
                 self._exec(run)
-                if run.verdict == "inconclusive":
+                why = (run.result or {}).get("inconclusive", "") or getattr(run, "why", "")
+                if run.verdict == "inconclusive" and ": slow" in why:
+                    # still making progress when the watchdog fired: a sizing problem of the
+                    # workload, not a verdict about the property
+                    run.verdict = "harness_error"
+                    run.stderr += "\nworkload too slow for its watchdog twice: " + why
+                elif run.verdict == "inconclusive":
                     sc = (run.result or {}).get("scenario", "?")
                     run.viol.append(("hang:reproduced:%s:%s" % (run.harness, run.tag or sc),
                                      "inconclusive twice (watchdog/timeout); stderr tail: " +
